@@ -1,0 +1,14 @@
+//go:build verif
+
+package provider
+
+// VerifPoint, when set, is called at named points of the sweeping provider
+// (the swarm exploration stopping early). It exists for the verification
+// harness only and is compiled in with the verif build tag.
+var VerifPoint func(point string, prefix string)
+
+func verifPoint(point string, prefix string) {
+	if f := VerifPoint; f != nil {
+		f(point, prefix)
+	}
+}
